@@ -149,6 +149,9 @@ func (p *ProjectRunner) runProcess(config *types.ProcessConfig) {
 	// (not the terminal state of its previous run), so that a stop request can still prevent it
 	process.setState(types.ProcessStatePending)
 	p.addRunningProcess(process)
+	// it is no longer an ended process: a dependent that looks it up from now on has to find this
+	// instance and wait for it, not the one of the previous run
+	p.removeDoneProcess(config.ReplicaName)
 	p.waitGroup.Add(1)
 	verif.Count("run:wg", 1)
 	verif.Spawn()
@@ -343,6 +346,12 @@ func (p *ProjectRunner) addRunningProcess(process *Process) {
 	p.runProcMutex.Lock()
 	p.runningProcesses[process.getName()] = process
 	p.runProcMutex.Unlock()
+}
+
+func (p *ProjectRunner) removeDoneProcess(name string) {
+	p.doneProcMutex.Lock()
+	delete(p.doneProcesses, name)
+	p.doneProcMutex.Unlock()
 }
 
 func (p *ProjectRunner) addDoneProcess(process *Process) {
